@@ -156,7 +156,8 @@ def run_monitor(trace, tag):
     return {"verdicts": verdicts, "counters": counters, "states": states, "transitions": max(gen - 1, 0)}
 
 
-def run_model(name, constants=None, invariants=None, workers=None, timeout=3000, xmx="8g", env=None, tag=None, spec="Spec"):
+def run_model(name, constants=None, invariants=None, workers=None, timeout=3000, xmx="8g", env=None, tag=None, spec="Spec",
+              simulate=None):
     """Bounded model MC_<name>.tla with a generated configuration. Returns states, transitions,
     JSON objects printed by the model (REPLAY lines), violated invariants, per-action coverage."""
     tag = tag or name
@@ -170,12 +171,18 @@ def run_model(name, constants=None, invariants=None, workers=None, timeout=3000,
             f.write("INVARIANTS " + " ".join(invariants) + "\n")
         f.write("CHECK_DEADLOCK FALSE\n")
     rc, text = tlc_raw("MC_%s.tla" % name, cfgp, os.path.join(OUT, "meta", "mc_" + tag),
-                       workers=workers or min(NPROC, 8), xmx=xmx, timeout=timeout, env=env)
+                       workers=workers or min(NPROC, 8), xmx=xmx, timeout=timeout, env=env,
+                       extra=(["-simulate", "num=%d" % simulate[0], "-depth", str(simulate[1])] if simulate else None))
     m = RE_STATES.search(text)
+    if not m and simulate:
+        # simulation mode reports "The number of states generated: N"
+        ms = re.search(r"The number of states generated: (\d+)", text)
+        if ms:
+            m = re.match(r"(\d+) (\d+)", "%s %s" % (ms.group(1), ms.group(1)))
     if not m:
         raise ToolError("TLC model %s produced no state count:\n%s" % (name, text[-3000:]))
     objs = parse_json_prints(text)
-    ok = "No error has been found" in text
+    ok = "No error has been found" in text or (simulate is not None and "Error" not in text and not re.search(r"is violated", text))
     violated = re.findall(r"Invariant (\S+) is violated", text) + re.findall(r"property (\S+) was violated", text)
     if not ok and not violated:
         raise ToolError("TLC model %s failed:\n%s" % (name, "\n".join(l for l in text.splitlines() if not l.startswith('"{'))[-3000:]))
